@@ -615,7 +615,11 @@ func (fr *frame) visitInstr(instr ssa.Instruction) continuation {
 		idx := fr.get(instr.Index)
 		switch x := x.(type) {
 		case array:
-			fr.set(instr, x[m.index(idx, len(x), instr.Index.Type())])
+			if it, ok := idx.(*sym.Term); ok && len(x) <= 512 && allScalar(x) {
+				fr.set(instr, m.symIndexArr(x, it, instr.Index.Type(), instr.Type()))
+			} else {
+				fr.set(instr, x[m.index(idx, len(x), instr.Index.Type())])
+			}
 		case string:
 			if it, ok := idx.(*sym.Term); ok {
 				fr.set(instr, m.symIndexStr(strBytes(x), it, instr.Index.Type()))
@@ -695,18 +699,28 @@ func (m *Machine) concreteInt(v value) int64 {
 	return asInt64(v)
 }
 
+// inRange builds 0 <= it < n for an index term of static type t.
+func (m *Machine) inRange(it *sym.Term, n int, t types.Type) value {
+	c := m.ctx()
+	_, signed := basicSort(t)
+	bits := it.Sort.Bits()
+	if signed {
+		nonneg := c.Bin(sym.OpSLe, c.Const(it.Sort, 0), it)
+		if bits < 64 && uint64(n) > (uint64(1)<<uint(bits-1))-1 {
+			return lowerBool(nonneg)
+		}
+		return lowerBool(c.And(nonneg, c.Bin(sym.OpSLt, it, c.Const(it.Sort, uint64(n)))))
+	}
+	if bits < 64 && uint64(n) > (uint64(1)<<uint(bits))-1 {
+		return true
+	}
+	return lowerBool(c.Bin(sym.OpULt, it, c.Const(it.Sort, uint64(n))))
+}
+
 // index checks 0 <= idx < n and returns a concrete index (forking if symbolic).
 func (m *Machine) index(idx value, n int, t types.Type) int {
 	if it, ok := idx.(*sym.Term); ok {
-		c := m.ctx()
-		_, signed := basicSort(t)
-		var inr *sym.Term
-		if signed {
-			inr = c.And(c.Bin(sym.OpSLe, c.Const(it.Sort, 0), it), c.Bin(sym.OpSLt, it, c.Const(it.Sort, uint64(n))))
-		} else {
-			inr = c.Bin(sym.OpULt, it, c.Const(it.Sort, uint64(n)))
-		}
-		if !m.truth(lowerBool(inr)) {
+		if !m.truth(m.inRange(it, n, t)) {
 			panic(m.runtimeError(fmt.Sprintf("index out of range [%s] with length %d", "?", n)))
 		}
 		return int(m.concretize(it))
@@ -725,14 +739,7 @@ func (m *Machine) index(idx value, n int, t types.Type) int {
 func (m *Machine) symIndexStr(b []value, it *sym.Term, t types.Type) value {
 	c := m.ctx()
 	n := len(b)
-	_, signed := basicSort(t)
-	var inr *sym.Term
-	if signed {
-		inr = c.And(c.Bin(sym.OpSLe, c.Const(it.Sort, 0), it), c.Bin(sym.OpSLt, it, c.Const(it.Sort, uint64(n))))
-	} else {
-		inr = c.Bin(sym.OpULt, it, c.Const(it.Sort, uint64(n)))
-	}
-	if !m.truth(lowerBool(inr)) {
+	if !m.truth(m.inRange(it, n, t)) {
 		panic(m.runtimeError(fmt.Sprintf("index out of range [%s] with length %d", "?", n)))
 	}
 	if n > 64 {
@@ -743,6 +750,35 @@ func (m *Machine) symIndexStr(b []value, it *sym.Term, t types.Type) value {
 		acc = c.Ite(c.Eq(it, c.Const(it.Sort, uint64(i))), m.toTerm(b[i]), acc)
 	}
 	return lower(types.Typ[types.Uint8], acc)
+}
+
+func allScalar(a []value) bool {
+	for _, v := range a {
+		switch v.(type) {
+		case bool, int, int8, int16, int32, int64, uint, uint8, uint16, uint32, uint64, uintptr, *sym.Term:
+		default:
+			return false
+		}
+	}
+	return true
+}
+
+// symIndexArr reads a[idx] for a symbolic index over scalar elements as an ITE chain.
+func (m *Machine) symIndexArr(a []value, it *sym.Term, idxT, elemT types.Type) value {
+	c := m.ctx()
+	n := len(a)
+	if !m.truth(m.inRange(it, n, idxT)) {
+		panic(m.runtimeError(fmt.Sprintf("index out of range [%s] with length %d", "?", n)))
+	}
+	acc := m.toTerm(a[n-1])
+	for i := n - 2; i >= 0; i-- {
+		e := m.toTerm(a[i])
+		if e == acc {
+			continue
+		}
+		acc = c.Ite(c.Eq(it, c.Const(it.Sort, uint64(i))), e, acc)
+	}
+	return lower(elemT, acc)
 }
 
 // slice returns x[lo:hi:max].
